@@ -726,7 +726,11 @@ func (l *lexer) lexHeredoc() action {
 					break Heredoc
 				}
 				// store <newline>
-				if w1, ok := l.word[len(l.word)-1].(*ast.Lit); ok {
+				var w1 *ast.Lit
+				if n := len(l.word); n != 0 {
+					w1, _ = l.word[n-1].(*ast.Lit)
+				}
+				if w1 != nil {
 					w1.Value += "\n"
 					// concatenate
 					if len(l.word) > 1 {
